@@ -70,6 +70,16 @@ func VerifC10_wrappers() {
 	if create != 0 {
 		vfTag("created-by-subpackage")
 	}
+	// some other table's JSON rendering has failed part-way earlier in the process
+	if vfChoice("earlier-failure", 2) == 1 {
+		bad := tabular.New()
+		bad.AddHeaders("k")
+		bad.AddRowItems("fine")
+		bad.AddRowItems(vfUnencodable{s: "bad"})
+		bo, be := json.Render(bad)
+		vfAssert(vfAnd(be != nil, bo == ""), "unencodable-item-refused-without-text")
+		vfTag("after-failed-json-render")
+	}
 	ref := tabular.New()
 	vfFill(ref, a, b)
 	maxDepth := 1
